@@ -136,6 +136,15 @@ class Sort(Reordering):
                 done=False,
                 messages=(f"{current.operation} is order-dependent",),
             )
+        if isinstance(current.operation, Reordering):
+            # Applying the existing reordering after this one would let it
+            # take precedence over this one.
+            return UnaryCommutator(
+                first=None,
+                second=current.operation,
+                done=False,
+                messages=(f"{current.operation} is a reordering",),
+            )
         return UnaryCommutator(self, current.operation)
 
     def simplify(self, upstream: UnaryOperation) -> UnaryOperation | None:
